@@ -159,10 +159,18 @@ def _token_agent(ns, aid, js, log, kind):
         appendPropagateEvent = Agent.appendPropagateEvent
         prunePropagateEvents = Agent.prunePropagateEvents
 
+        station_keeping = ()
+        dynamics = "dynamics-token"
+        datetime_epoch = None
+
         def __init__(self):
             self.propagate_event_queue = []
             self.sensor_time_bias_event_queue = []
             self._time = ns.ScenarioTime(0)
+            self.eci_state = ("state", aid, 0)
+            self.dt_step = None
+
+        time = property(lambda self: self._time, lambda self, v: setattr(self, "_time", v))
 
         def appendTimeBiasEvent(self, ev):
             log.append(("time_bias", kind, aid, log.step, ev))
@@ -239,7 +247,35 @@ class _Reg:
         self.agent = agent
 
 
-def run_steps(b_unused, dt, truth_only, mk_events, nsteps=3, pin=None, k0_max=None):
+class ContractExecutor:
+    """Stands for PropagateExecutor + the remote worker.  The real PropagateRegistration.generateSubmission and processResults run;
+    the worker's Celestial.propagate is replaced by its contract for impulses (what C03's obligations prove of the real restart
+    loop): an impulse of the submitted queue is applied exactly once iff init_time <= its time <= final_time, where equality is
+    the code's own fpe_equals tolerance at both ends; nothing else is applied."""
+
+    def __init__(self, log, fpe):
+        self.log, self.fpe, self.jobs = log, fpe, []
+
+    def enqueueJob(self, reg):
+        self.jobs.append(reg)
+
+    def join(self):
+        from resonaate.parallel.agent_propagation import PropagateResult
+
+        jobs, self.jobs = self.jobs, []
+        for reg in jobs:
+            sub = reg.generateSubmission()
+            for ev in list(sub.scheduled_events or ()):
+                if not hasattr(ev, "getStateChange"):
+                    continue
+                after_start = bool(sub.init_time < ev.time) or bool(self.fpe(ev.time, sub.init_time))
+                before_end = bool(ev.time < sub.final_time) or bool(self.fpe(ev.time, sub.final_time))
+                if after_start and before_end:
+                    self.log.append(("applied", sub.agent_id, self.log.step, ev))
+            reg.processResults(PropagateResult(agent_id=sub.agent_id, final_time=sub.final_time, prev_state=sub.init_eci, final_eci=("state", sub.agent_id, self.log.step + 1)))
+
+
+def run_steps(b_unused, dt, truth_only, mk_events, nsteps=3, pin=None, k0_max=None, apply=False):
     """Three real stepForward calls; returns everything the obligations need."""
     from resonaate.scenario import scenario as SC
 
@@ -257,18 +293,34 @@ def run_steps(b_unused, dt, truth_only, mk_events, nsteps=3, pin=None, k0_max=No
         ray_stub = types.SimpleNamespace(put=lambda x: x)
         es = types.SimpleNamespace(logAndFlushEvents=lambda: None)
         wins = []
-        with shadow(SC, ray=ray_stub, EventStack=es, PropagateRegistration=_Reg, EstPredictRegistration=_Reg, EstUpdateRegistration=lambda *a: None,
-                    datetimeToJulianDate=jdp):
+        import contextlib
+
+        from resonaate.parallel import agent_propagation as AP
+        from resonaate.physics import maths as MA
+
+        extra = contextlib.ExitStack()
+        names = dict(ray=ray_stub, EventStack=es, EstPredictRegistration=_Reg, EstUpdateRegistration=lambda *a: None, datetimeToJulianDate=jdp)
+        if apply:
+            for ag in list(sc.target_agents.values()) + list(sc._sensor_agents.values()):
+                ag._time = sc.clock.time
+                ag.dt_step = sc.clock.dt_step
+            sc._agent_propagator = ContractExecutor(log, MA.fpe_equals)
+            extra.enter_context(shadow(AP, ReductionParams=types.SimpleNamespace(build=lambda d: None)))
+        else:
+            names["PropagateRegistration"] = _Reg
+        with extra, shadow(SC, **names):
             for s in range(nsteps):
                 log.step = s
                 nq = len(sc.database.queries)
                 sc.stepForward()
-                # agents advance with the clock and prune their queues, as PropagateRegistration.processResults does
                 for kind, ags in (("target", sc.target_agents), ("estimate", sc._estimate_agents)):
                     for ag in ags.values():
-                        ag._time = sc.clock.time
+                        if not (apply and kind == "target"):
+                            # agents advance with the clock and prune their queues, as PropagateRegistration does
+                            ag._time = sc.clock.time
                         log.append(("queue", (kind, ag.simulation_id), s, list(ag.propagate_event_queue)))
-                        ag.prunePropagateEvents()
+                        if not (apply and kind == "target"):
+                            ag.prunePropagateEvents()
                 wins.append(sc.database.queries[nq:])
         return dict(ns=ns, t0=t0, k0=k0, n0=n0, sod0=sod0, sc=sc, log=log, events=events, js=sc.clock.julian_date_start)
 
@@ -478,7 +530,7 @@ def _decide_deliveries(rep, res, dt, tag, run):
 N_CANDIDATES = 150
 
 
-def _ladder(rep, pending, dt):
+def _ladder(rep, pending, dt, replay=None):
     """Counterexample candidates of the relaxed (over-approximate) encoding.  The relaxed encoding admits rounding outcomes the
     real doubles do not produce, so a candidate may fail to replay on the real code: further candidates are then drawn from the
     solver (round-robin over the satisfiable paths, earlier start instants blocked, a different start date each time).  A
@@ -492,7 +544,7 @@ def _ladder(rep, pending, dt):
                 continue
             tried += 1
             cand = st["cand"]
-            reproduced, detail = replay_impulse(cand)
+            reproduced, detail = (replay or replay_impulse)(cand)
             if reproduced:
                 rep.note(f"{st['label']}: candidate #{tried} of the relaxed encoding reproduces on the real code")
                 rep.concrete_violation(st["label"], cand, detail)
@@ -515,6 +567,120 @@ def _ladder(rep, pending, dt):
                 break
     for st in state:
         rep.undecided(st["label"], f"counterexample candidates of the relaxed encoding ({st['why']}) did not reproduce on the real code ({tried} tried over {len(state)} paths); not decided")
+
+
+# ---- the impulse changes the truth velocity exactly once ------------------------------------------------
+def replay_applied(d):
+    """The whole chain on the real code: real stepForward, real ScheduledImpulseEvent.handleEvent, real PropagateRegistration
+    (generateSubmission / processResults), and the worker's real TwoBody.propagate with the real scipy integrator.  The number
+    of times the impulse's getStateChange ran is counted, and the velocity jump is measured."""
+    import numpy as np
+
+    from resonaate.data.events import EventScope, ScheduledImpulseEvent
+    from resonaate.dynamics.integration_events import scheduled_impulse as SIE
+    from resonaate.dynamics.two_body import TwoBody
+    from resonaate.parallel import agent_propagation as AP
+    from resonaate.physics.time.stardate import JulianDate, ScenarioTime, datetimeToJulianDate
+    from resonaate.scenario import clock as CK
+    from resonaate.scenario import scenario as SC
+
+    start = _dt.datetime.fromisoformat(d["start"])
+    dt, k0, m = d["dt"], d["k0"], d["m"]
+    if k0 * dt < 40:
+        return False, {"skipped": "scenario times below 40 s are outside the bound (numpy.spacing below fpe resolution: C15/C03 note)"}
+    ns = types.SimpleNamespace(JulianDate=JulianDate, ScenarioTime=ScenarioTime)
+    log = _Log()
+    js = datetimeToJulianDate(start)
+    tgt = d.get("target", TGT_IDS[0])
+    e = datetimeToJulianDate(start + _dt.timedelta(seconds=m))
+    ev = ScheduledImpulseEvent(scope=EventScope.AGENT_PROPAGATION.value, scope_instance_id=tgt, start_time_jd=e, end_time_jd=e, event_type="impulse",
+                               thrust_vec_0=0.0, thrust_vec_1=0.0, thrust_vec_2=1e-3, thrust_frame="eci", planned=False)
+    clock = object.__new__(CK.ScenarioClock)
+    clock.datetime_start, clock.julian_date_start = start, js
+    clock.dt_step, clock.time, clock.initial_time = ScenarioTime(dt), ScenarioTime(k0 * dt), ScenarioTime(0)
+    sc = object.__new__(SC.Scenario)
+    sc.clock = clock
+    sc.current_julian_date = clock.julian_date_epoch
+    sc.database = StubDB([ev])
+    nul = lambda *a, **k: None  # noqa: E731
+    sc.logger = types.SimpleNamespace(info=nul, error=nul, debug=nul, warning=nul)
+    sc.scenario_config = types.SimpleNamespace(propagation=types.SimpleNamespace(truth_simulation_only=True))
+    sc.target_agents = {i: _token_agent(ns, i, js, log, "target") for i in TGT_IDS}
+    sc._sensor_agents, sc._estimate_agents = {}, {i: _token_agent(ns, i, js, log, "estimate") for i in TGT_IDS}
+    sc._ephem_importer = None
+    x0 = np.array([7000.0, 0.0, 0.0, 0.0, 7.546, 0.0])
+    for a in sc.target_agents.values():
+        a._time, a.dt_step, a.eci_state, a.dynamics = ScenarioTime(k0 * dt), ScenarioTime(dt), x0.copy(), TwoBody()
+    calls = []
+
+    class Exec:
+        def __init__(self):
+            self.jobs = []
+
+        def enqueueJob(self, reg):
+            self.jobs.append(reg)
+
+        def join(self):
+            jobs, self.jobs = self.jobs, []
+            for reg in jobs:
+                sub = reg.generateSubmission()
+                vz0 = sub.init_eci[5]
+                new = sub.dynamics.propagate(sub.init_time, sub.final_time, sub.init_eci, station_keeping=sub.station_keeping, scheduled_events=sub.scheduled_events)
+                reg.processResults(AP.PropagateResult(agent_id=sub.agent_id, final_time=sub.final_time, prev_state=sub.init_eci, final_eci=new))
+
+    sc._agent_propagator = Exec()
+    sc._estimate_predictor = sc._estimate_updater = types.SimpleNamespace(enqueueJob=nul, join=nul)
+    sc._target_store, sc._sensor_store, sc._estimate_store, sc._tasking_engines = {}, {}, {}, {}
+    stack = types.SimpleNamespace(pushEvent=lambda rec: calls.append(log.step), logAndFlushEvents=nul)
+    with shadow(SC, ray=types.SimpleNamespace(put=lambda x: x), EventStack=stack, EstPredictRegistration=_Reg, EstUpdateRegistration=lambda *a: None), \
+            shadow(SIE, EventStack=stack), shadow(AP, ReductionParams=types.SimpleNamespace(build=lambda dd: None)):
+        for s in range(3):
+            log.step = s
+            sc.stepForward()
+    vz = float(sc.target_agents[tgt].eci_state[5])
+    want_step = (m - k0 * dt - 1) // dt
+    ok = len(calls) == 1 and calls[0] in (want_step, want_step + 1) and abs(vz - 1e-3) < 2e-4
+    return (not ok), {"getStateChange_calls_in_steps": calls, "expected_once_in_step": [want_step, want_step + 1], "vz_after_km_s": vz, "delta_v_z_km_s": 1e-3}
+
+
+def o_applied(rep, dt):
+    """Through the real PropagateRegistration and the worker's impulse contract: the impulse of a row is applied exactly once."""
+    def mk(ns, jdp, t0, k0):
+        tgt = integer("target")
+        assume(z3.Or(*[tgt.t == i for i in TGT_IDS]))
+        m = integer("m")
+        assume(m.t > k0.t * dt, m.t <= (k0.t + 2) * dt, k0.t * dt >= 40)
+        return [_impulse_row(jdp, t0, m.t, tgt)]
+
+    res = _explore(lambda: run_steps(None, dt, True, mk, apply=True), "relaxed")
+    tag = f"[dt={dt}]"
+    n = 0
+    pending = []
+    for k, r in enumerate(res):
+        if r.exc is not None:
+            rep.error(f"exception{tag}#{k}", repr(r.exc))
+            continue
+        n += 1
+        out = r.out
+        k0, mt, tgt = out["k0"], z3.Int("m"), z3.Int("target")
+        applied = [x for x in out["log"] if x[0] == "applied"]
+        goals = [z3.BoolVal(len(applied) == 1)]
+        if applied:
+            _a, aid, s, ev = applied[0]
+            goals += [tgt == aid, z3.And(mt > (k0.t + s - 1) * dt, mt <= (k0.t + s + 1) * dt),
+                      z3.And(ev.time.t - z3.ToReal(mt) < rv(Fraction(1, 1000)), z3.ToReal(mt) - ev.time.t < rv(Fraction(1, 1000)))]
+        goal = z3.And(*goals)
+        v = solve(fp.sliced(r.path, goal) + [z3.Not(goal)], 120000)
+        rep._item(f"applied-once{tag}#{k}", "prove", v)
+        rep.sample({"obligation": f"applied-once{tag}", "verdict": v.status, "what": "the impulse is applied to the addressed truth agent exactly once over the steps, at its configured time (real generateSubmission/prune/processResults; worker by its impulse contract)"})
+        if v.status == "unknown":
+            rep.undecided(f"applied-once{tag}#{k}", v.reason)
+        elif v.status == "sat":
+            pending.append((f"applied-once{tag}#{k}", _inputs(dt, ("target",))(v.model), fp.sliced(r.path, goal) + [z3.Not(goal)], "relaxed-rounding candidate"))
+    if n == 0:
+        rep.error(f"reach{tag}", "no path")
+    if pending:
+        _ladder(rep, pending, dt, replay=replay_applied)
 
 
 # ---- the query predicate ---------------------------------------------------------------------------
@@ -686,6 +852,9 @@ def obligations(tier):
             name = f"impulse-dt{dt}-{'aligned' if aligned else 'any'}"
             obs.append(Ob(name, (lambda dt, aligned: lambda rep: o_impulse(rep, dt, aligned))(dt, aligned), f"impulse row delivered exactly once in its step, dt={dt}", 900))
             REPLAYS[name] = replay_impulse
+    for dt in ((60, 300) if tier == "quick" else (45, 60, 300, 3080)):
+        obs.append(Ob(f"applied-dt{dt}", (lambda dt: lambda rep: o_applied(rep, dt))(dt), f"impulse applied exactly once to the truth agent, dt={dt}", 900))
+        REPLAYS[f"applied-dt{dt}"] = replay_applied
     for dt in ((60, 3080) if tier == "quick" else (7, 60, 300, 3080)):
         obs.append(Ob(f"scopes-dt{dt}", (lambda dt: lambda rep: o_scopes(rep, dt))(dt), f"scenario / observation scopes and engine epochs, dt={dt}", 900))
     return obs
